@@ -10,7 +10,7 @@ def LocallyGood (retr : Nat → Option Cert) (rank : Cert → Nat) (c : Cert) : 
   else
     c.hash ≠ c.prevHash ∧ c.multiSigOk = true ∧
     ∃ p, retr c.prevHash = some p ∧ p.hash = c.prevHash ∧ rank p < rank c ∧
-      absDiff c.epoch p.epoch ≤ 1 ∧ avkChain c p = true ∧ paramsChain c p = true
+      p.epoch ≤ c.epoch ∧ c.epoch ≤ p.epoch + 1 ∧ avkChain c p = true ∧ paramsChain c p = true
 
 theorem verifyCertificate_of_good {retr rank c} (h : LocallyGood retr rank c) :
     (c.isGenesis = true ∧ verifyCertificate retr c = .ok none) ∨
@@ -22,9 +22,10 @@ theorem verifyCertificate_of_good {retr rank c} (h : LocallyGood retr rank c) :
     exact ⟨hg, by simp [verifyCertificate, hg, h1, h2, h3, h]⟩
   · right
     simp only [hg] at h
-    obtain ⟨hne, hms, p, hp, hph, hr, hd, ha, hpa⟩ := h
+    obtain ⟨hne, hms, p, hp, hph, hr, hd1, hd2, ha, hpa⟩ := h
     refine ⟨p, hp, hr, ?_⟩
-    have hd' : ¬ absDiff c.epoch p.epoch > 1 := by omega
+    have hd' : ¬ (absDiff c.epoch p.epoch > 1 ∨ p.epoch > c.epoch) := by
+      unfold absDiff; split <;> omega
     simp [verifyCertificate, hg, hp, integrityStd, hne, h1, h2, h3, hms, hd', hph, ha, hpa]
 
 /-- **every stored certificate verifies with its whole chain** -/
